@@ -56,6 +56,8 @@ def plan(tier, seed):
         shards.append(("registry", name, tier))
         shards.append(("lengths", name, tier))
     shards.append(("accepted", tier))
+    # every identifier x every model class constructed first and kept alive, resolution checked afterwards
+    shards.append(("alive", tier))
     return shards
 
 
@@ -144,6 +146,63 @@ def save_load_resolution(name, seed):
     finally:
         import shutil
         shutil.rmtree(d, ignore_errors=True)
+
+
+def build(name, via):
+    import opfython.core.opf as O
+    import opfython.models as M
+    if via == "OPF":
+        return O.OPF(distance=name)
+    if via == "KNNSupervisedOPF":
+        return M.KNNSupervisedOPF(max_k=1, distance=name)
+    if via == "UnsupervisedOPF":
+        return M.UnsupervisedOPF(min_k=1, max_k=1, distance=name)
+    return getattr(M, via)(distance=name)
+
+
+def run_alive(seed, res):
+    """All 47 x 5 objects exist at the same time; only then is each one's option compared with the
+    function it resolved to (an object's metric must not depend on which objects were built later)."""
+    objs = []
+    vias = [v for v in MODEL_KINDS if v != "DISTANCES"]
+    for name in axioms.NAMES:
+        for via in vias:
+            try:
+                objs.append((name, via, build(name, via)))
+            except Exception:
+                pass           # reported by the registry shards
+    for name, via, m in objs + objs[::-1]:
+        prob = None
+        x = y = []
+        if m.distance != name:
+            prob = "the option reads %r" % (m.distance,)
+        else:
+            V = grids.vectors(classes_for(name)[0], seed, "quick", dmax=2)
+            for dd, vs in V.items():
+                for x in vs[:4]:
+                    for y in vs[-4:]:
+                        try:
+                            got = m.distance_fn(np.array(x, dtype=float), np.array(y, dtype=float))
+                        except Exception as ex:
+                            got = "raised %r" % (ex,)
+                        res.transitions += 1
+                        res.nontrivial += 1
+                        prob = agree(name, got, x, y)
+                        if prob:
+                            break
+                    if prob:
+                        break
+                if prob:
+                    break
+        if prob:
+            text = ("%s(distance=%r), used after %d other objects had been constructed: %s"
+                    % (via, name, len(objs) - 1, prob))
+            res.violations.append({
+                "check": "registry", "program": {"metric": name, "via": "alive", "x": list(x), "y": list(y)},
+                "observed": text, "allowed": "each object resolves its own identifier",
+                "explanation": text, "fingerprint": "metric via model option: depends on other live objects"})
+            break
+    res.sample({"objects_alive": len(objs), "checked": "option and function of each, in both orders"}, 1)
 
 
 def candidates():
@@ -279,6 +338,8 @@ def run(shard, seed):
                 "observed": prob, "allowed": "distance option and distance function agree after load",
                 "explanation": prob, "fingerprint": "metric %s via model option: after save/load" % name})
         res.sample({"metric": name, "resolved_via": MODEL_KINDS + ["save/load into another identifier"]}, 1)
+    elif kind == "alive":
+        run_alive(seed, res)
     else:
         import opfython.math.distance as D
         import opfython.core.opf as O
@@ -317,8 +378,8 @@ def run(shard, seed):
 
 def replay(case):
     p = case["program"]
-    if p["via"] == "accepted":
-        r = run(("accepted", "quick"), 0)
+    if p["via"] in ("accepted", "alive"):
+        r = run((p["via"], "quick"), int(case.get("seed", 0) or 0))
         return r.violations[0] if r.violations else None
     try:
         fn = resolve(p["metric"], p["via"])
